@@ -71,7 +71,16 @@ def _check_model(path, size_limit, selftest, strat):
     if sorted(sd.network.variable_names()) != sorted(names):
         return {"skipped": "variable names differ (sanitised)"}, []
     label = label + "/" + strat
-    complete = STRATS[strat](sd, size_limit)
+    try:
+        complete = STRATS[strat](sd, size_limit)
+    except RuntimeError as e:
+        if "Exceeded the maximum" in str(e):
+            return {"skipped": "resource limit"}, []
+        return {"queries": 0}, [f"{label}: the strategy raised RuntimeError: {str(e)[:120]}"]
+    except TimeoutError:
+        raise
+    except Exception as e:
+        return {"queries": 0}, [f"{label}: the strategy raised {type(e).__name__}: {str(e)[:120]}"]
     mts = {int(i): dict(sd.node_data(i)["space"]) for i in sd.minimal_trap_spaces()}
     fails, q = [], 0
     s = z3.Solver()
@@ -134,6 +143,12 @@ def _check_model(path, size_limit, selftest, strat):
         for sd_ in lst:
             if len(sd_) != len(names) or any(sd_.get(k) != v for k, v in sp.items()):
                 fails.append(f"{label}: seed of node {nid} is not a total state inside the node's space")
+            # a node's seeds are the attractors NOT inside one of its successors (for skip nodes: its minimal trap spaces)
+            for c in sd.node_successors(nid, compute=False) if sd.node_data(nid)["expanded"] else []:
+                cs = sd.node_data(c)["space"]
+                if all(sd_.get(k) == v for k, v in cs.items()):
+                    fails.append(f"{label}: a seed of node {nid} lies inside its successor {c}")
+                    break
             inside = [i for i, T in mts.items() if all(sd_.get(k) == v for k, v in T.items())]
             if len(inside) > 1:
                 fails.append(f"{label}: a seed lies in two minimal trap spaces")
